@@ -981,3 +981,67 @@ def socket_close_confined(ctx: Ctx, rule: str):
                      f"thread may be between building its select lists and select(), which then raises "
                      f"ValueError outside any handler and ends the connection thread - no peer is "
                      f"served or dialled any more", rule=rule)
+
+
+def ready_check_atomic_with_send(ctx: Ctx, rule: str, api_method: str, route_method: str):
+    """`Application.<api_method>` routes (the route function tests `state in PEER_READY_STATES`)
+    and then queues the message with Node.send_message.  The state is changed by the connection's
+    reader thread (DPR -> DISCONNECTING) and by the node thread; unless the test and the enqueue
+    happen under a lock those transitions take as well, or send_message tests the state itself,
+    a transition in between lets the message go out on a connection that is no longer ready."""
+    from ..lockset import held_locks
+    model = ctx.model
+    app = model.cls("node.application", "Application")
+    nc = model.cls("node.node", "Node")
+    f = app.methods.get(api_method)
+    sm = nc.methods.get("send_message")
+    ctx.rule(rule, f"the ready test of {route_method} and the enqueue in send_message are atomic "
+                   f"with respect to state changes of the connection", floor=1)
+    cons = f"Application.{api_method}:ready-check-then-send"
+    ctx.inst(cons, rule=rule)
+    if f is None or sm is None:
+        ctx.error(f"Application.{api_method} / Node.send_message not found", rule=rule)
+        return
+    ctx.use(f, sm)
+    calls = {A.call_name(c).split(".")[-1]: c for c in ast.walk(f.node) if isinstance(c, ast.Call)}
+    r_, s_ = calls.get(route_method), calls.get("send_message")
+    if r_ is None or s_ is None:
+        ctx.error(f"{api_method} does not call {route_method} and send_message", rule=rule)
+        return
+    common = set(held_locks(f, r_)) & set(held_locks(f, s_))
+    retests = any(isinstance(x, ast.Attribute) and x.attr == "state" for x in ast.walk(sm.node))
+    if not common and not retests:
+        ctx.fail(cons, f.loc(s_), f"{api_method} tests readiness in {route_method} and queues the message "
+                 f"in send_message without a lock around both, and send_message does not look at the "
+                 f"connection's state: a DPR handled by the reader thread (or a close by the node "
+                 f"thread) between the two lets the message be transmitted on a connection that is "
+                 f"DISCONNECTING/closing instead of failing with NotRoutable", rule=rule)
+
+
+def waiter_table_synchronised(ctx: Ctx, rule: str):
+    """Application._answer_waiting is used by the sending (user) thread and by the reader thread
+    that delivers the answer; lookup-then-fill and wait-then-remove are two-step operations."""
+    from ..lockset import held_locks
+    model = ctx.model
+    app = model.cls("node.application", "Application")
+    ctx.rule(rule, "every access to Application._answer_waiting happens under one lock", floor=1)
+    cons = "Application._answer_waiting:unsynchronised"
+    sites = []
+    for fn in app.all_funcs:
+        if fn.name == "__init__":
+            continue
+        for n in A.walk_no_nested(fn.node):
+            if isinstance(n, ast.Attribute) and n.attr == "_answer_waiting" and A.dotted(n.value) == "self":
+                sites.append((fn, n))
+    common = None
+    for fn, n in sites:
+        h = set(held_locks(fn, n))
+        common = h if common is None else (common & h)
+    ctx.inst(cons, rule=rule, sample={"functions": sorted({f.qualname for f, _ in sites}),
+                                      "common_lock": sorted(common or [])})
+    if sites and not common:
+        ctx.fail(cons, sites[0][0].loc(sites[0][1]), f"the waiter table is accessed by "
+                 f"{sorted({f.qualname for f, _ in sites})} (sender thread, reader thread, stop()) without "
+                 f"a common lock: an answer delivered after the sender's wait has timed out but before "
+                 f"its `finally` removes the entry is stored in the abandoned slot - the sender raises "
+                 f"TimeoutError and the answer reaches neither the sender nor handle_answer", rule=rule)
